@@ -150,6 +150,8 @@ def extract(units=None, verbose=True):
     root = os.path.join(FACTS, key)
     with open(os.path.join(FACTS, "lock"), "w") as lk:
         fcntl.flock(lk, fcntl.LOCK_EX)
+        if os.path.isdir(root):
+            os.utime(root, None)        # least-recently-USED eviction: a key that is being read stays
         status_p = os.path.join(root, "STATUS.json")
         status = json.load(open(status_p)) if os.path.exists(status_p) else {}
         todo = [u for u in units if not status.get(u, {}).get("ok")]
